@@ -137,6 +137,37 @@ def gen_C04(tier, rng):
                     continue
                 prog = ";".join(_render(a, rng, pos, mod) for a in seq)
                 yield (f"{head} {prog}", f"{name}.hist{d}")
+        # the same exhaustive enumeration once per remaining (R, key length): R in {8, 12} and the 16-byte key are separate
+        # code paths of the constructors (constants "expand 16-byte k", key doubling) and of the round loop
+        for R2 in ROUNDS:
+            for kl in klens:
+                if (R2, kl) == (20, klens[-1]):
+                    continue
+                head2 = f"{op} {R2} {hx(rng.rbytes(kl))} {hx(rng.rbytes(nlen))}"
+                for d in range(1, (2 if quick else 3) + 1):
+                    for seq in itertools.product(alpha, repeat=d):
+                        depth, ok = 0, True
+                        for (k, _) in seq:
+                            if k == "c":
+                                depth += 1
+                            elif k == "x" and depth == 0:
+                                ok = False
+                                break
+                        if not ok or seq[-1][0] in ("c", "seek"):
+                            continue
+                        prog = ";".join(_render(a, rng, pos, mod) for a in seq)
+                        yield (f"{head2} {prog}", f"{name}.hist{d}.R{R2}k{kl}")
+        # every phase of the 64-byte block: a first call of off bytes (off = 0..63), then a call that ends one byte before /
+        # exactly on / one byte after the block boundary, then a call crossing the next one; and a seek from every offset
+        for off in range(64):
+            R2, kl = ROUNDS[off % 3], klens[off % len(klens)]
+            head2 = f"{op} {R2} {hx(rng.rbytes(kl))} {hx(rng.rbytes(nlen))}"
+            for delta in (-1, 0, 1):
+                n = 64 - off + delta
+                a, b = ("m", "p") if (off + delta) % 2 else ("p", "m")
+                yield (f"{head2} {a}{hx(rng.rbytes(off))};{b}{hx(rng.rbytes(n))};{a}{hx(rng.rbytes(70))}", f"{name}.offset{'-1' if delta < 0 else ('+1' if delta else '=')}")
+            t = _pos_token(pos, mod, rng)
+            yield (f"{head2} m{hx(rng.rbytes(off))};{t};p{hx(bytes(70))};{t};m{hx(bytes(70))}", f"{name}.seek-from-offset")
         # random deeper histories, all R and key lengths
         for _ in range(120 if quick else 1200):
             R, kl = rng.choice(ROUNDS), rng.choice(klens)
@@ -196,14 +227,33 @@ def gen_C04(tier, rng):
             return f"{k}{hx(prior(n, fill))}"
         return k
     seed = rng.rbytes(32)
-    for fill in (0, 1, 2):
-        for d in range(1, (3 if quick else 4)):
-            for seq in itertools.product(reqs, repeat=d):
-                if fill > 0 and not any(k in "fl" for (k, _) in seq):
-                    continue
-                if d == 3 and quick and rng.random() < 0.6:
-                    continue
-                yield (f"stream.drg 20 {hx(seed)} {';'.join(rreq(r, fill) for r in seq)}", f"drg.hist{d}.fill{fill}")
+
+    def drg_exhaustive(R, seed, maxd, fills):
+        for fill in fills:
+            for d in range(1, maxd + 1):
+                for seq in itertools.product(reqs, repeat=d):
+                    if fill > 0 and not any(k in "fl" for (k, _) in seq):
+                        continue
+                    yield (f"stream.drg {R} {hx(seed)} {';'.join(rreq(r, fill) for r in seq)}", f"drg.hist{d}.fill{fill}.R{R}")
+    # every request sequence to depth 3 (complete, both tiers) over destination buffers pre-filled with 00 / ff / random for
+    # R = 20; thorough: depth 4 over zeroed buffers in addition; depth 2 for R = 8 and R = 12
+    yield from drg_exhaustive(20, seed, 3, (0, 1, 2))
+    if not quick:
+        for line, kind in drg_exhaustive(20, seed, 4, (0,)):
+            if line.count(";") == 3:
+                yield (line, kind)
+    for R in (8, 12):
+        yield from drg_exhaustive(R, rng.rbytes(32), 2, (0, 1, 2))
+    # u32 / u64 from every offset 0..63 inside the cached block (the word straddles the block boundary for off > 60 / > 56);
+    # the offset is reached by fill_slice (any length) and, where `bytes::<N>` is instantiated, by bytes::<off> as well
+    for off in range(64):
+        R = ROUNDS[off % 3]
+        sd = rng.rbytes(32)
+        yield (f"stream.drg {R} {hx(sd)} l{hx(prior(off, off % 3))};w;q;b8", "drg.word-at-offset")
+        yield (f"stream.drg {R} {hx(sd)} l{hx(prior(off, (off + 1) % 3))};q;w;b8", "drg.word-at-offset")
+        if off in DRG_NS:
+            yield (f"stream.drg {R} {hx(sd)} b{off};w;w;q;b8", "drg.word-at-offset")
+            yield (f"stream.drg {R} {hx(sd)} b{off};q;q;w;b8", "drg.word-at-offset")
     for _ in range(150 if quick else 1500):
         R = rng.choice(ROUNDS)
         fill = rng.choice([0, 0, 1, 2])
